@@ -251,6 +251,16 @@ func runMulti(c *fw.Ctx) {
 				}
 				cs.Cover("roundtrip:set")
 			}
+			mkVO := func(s *mvSpec) func() (pobj, error) {
+				return func() (pobj, error) {
+					o, err := s.mkV(ty.t)
+					if err != nil || o == nil {
+						return pobj{}, fmt.Errorf("constructor: %v", err)
+					}
+					return vobj(o, ty.t, X), nil
+				}
+			}
+			aliasCheck(cs, ev, rsig, mkVO(sp), mkVO(other))
 			// normalisation for n = 1
 			if n == 1 && ti == cs.Index%2 {
 				var br []float64
@@ -341,6 +351,16 @@ func runMulti(c *fw.Ctx) {
 				}
 				cs.Cover("roundtrip:set")
 			}
+			mkMO := func(s *mvSpec) func() (pobj, error) {
+				return func() (pobj, error) {
+					o, err := s.mkM(ty.t)
+					if err != nil || o == nil {
+						return pobj{}, fmt.Errorf("constructor: %v", err)
+					}
+					return mobj(o, ty.t, X, n, n), nil
+				}
+			}
+			aliasCheck(cs, ev, rsig, mkMO(sp), mkMO(other))
 			if n == 1 && ti == cs.Index%2 {
 				var br []float64
 				for _, k := range []float64{1.0 / 64, 1.0 / 16, 0.25, 0.5, 1, 2, 4, 16, 64, 1024} {
@@ -446,6 +466,16 @@ func runMulti(c *fw.Ctx) {
 				}
 				cs.Cover("roundtrip:set")
 			}
+			mkNO := func(kappa, nu float64, mu, lam []float64) func() (pobj, error) {
+				return func() (pobj, error) {
+					o, err := md.NewNormalIWishartDistribution(sc(ty.t, kappa), sc(ty.t, nu), vec(ty.t, mu), mat(ty.t, lam, n, n))
+					if err != nil || o == nil {
+						return pobj{}, fmt.Errorf("constructor: %v", err)
+					}
+					return pobj{o.GetParameters, o.SetParameters, func(i int) string { return evalNIW(o, ty.t, M[i], S[i]) }, len(M)}, nil
+				}
+			}
+			aliasCheck(cs, ev, rsig, mkNO(kappa, nu, mu0, lambda), mkNO(k2, nu2, mu2, l2))
 		}
 		cs.C.Cover("lp-evaluations", int64(2*len(M)))
 		cs.C.Data(ev)
